@@ -76,9 +76,21 @@ const size_t SHM_SIZE = 16u << 20;
 Shm* g_shm = nullptr;
 bool g_in_child = false;
 
+size_t g_last_off = (size_t)-1;    // offset of the last frame (to coalesce output)
 void emit(char tag, const void* p, size_t n) {
     if (!g_shm) return;
     size_t off = g_shm->len;
+    if ((tag == 'O' || tag == 'E') && g_last_off != (size_t)-1 && g_shm->data[g_last_off] == tag) {
+        // consecutive writes to the same stream form one frame
+        if (off + n > SHM_SIZE - sizeof(Shm)) { g_shm->overflow = 1; return; }
+        uint32_t old; memcpy(&old, g_shm->data + g_last_off + 1, 4);
+        memcpy(g_shm->data + off, p, n);
+        uint32_t nw = old + (uint32_t)n;
+        memcpy(g_shm->data + g_last_off + 1, &nw, 4);
+        g_shm->len = (uint32_t)(off + n);
+        return;
+    }
+    g_last_off = off;
     if (off + 5 + n > SHM_SIZE - sizeof(Shm)) { g_shm->overflow = 1; return; }
     char* d = g_shm->data + off;
     d[0] = tag;
@@ -537,11 +549,11 @@ int __wrap_main(int argc, char** argv) {
     out_frame(ctl_out, 'Y', "ready", 5);
     for (;;) {
         read_world(ctl_in);
-        g_shm->len = 0; g_shm->overflow = 0;
+        g_shm->len = 0; g_shm->overflow = 0; g_last_off = (size_t)-1;
         if (ftruncate(rawfd, 0) != 0) {}
         lseek(rawfd, 0, SEEK_SET);
         pid_t pid = fork();
-        if (pid < 0) { out_frame(ctl_out, 'W', "forkfail 0", 10); out_frame(ctl_out, '.', "", 0); continue; }
+        if (pid < 0) { char fb[32]; fb[0] = 'B'; uint32_t t = 15; memcpy(fb + 1, &t, 4); fb[5] = 'W'; uint32_t l = 10; memcpy(fb + 6, &l, 4); memcpy(fb + 10, "forkfail 0", 10); write_all(ctl_out, fb, 20); continue; }
         if (pid == 0) {
             close(ctl_in); close(ctl_out);
             dup2(rawfd, 1); dup2(rawfd, 2);
@@ -552,19 +564,27 @@ int __wrap_main(int argc, char** argv) {
         }
         int st = 0;
         while (waitpid(pid, &st, 0) < 0 && errno == EINTR) {}
-        write_all(ctl_out, (const void*)g_shm->data, g_shm->len);
-        if (g_shm->overflow) out_frame(ctl_out, 'V', "overflow", 8);
+        std::string tail;
+        auto add = [&tail](char tag, const void* p, size_t n) {
+            char h[5]; h[0] = tag; uint32_t n32 = (uint32_t)n; memcpy(h + 1, &n32, 4);
+            tail.append(h, 5); tail.append((const char*)p, n);
+        };
+        if (g_shm->overflow) add('V', "overflow", 8);
         off_t rawlen = lseek(rawfd, 0, SEEK_END);
         if (rawlen > 0) {
             std::string raw((size_t)rawlen, '\0');
             ssize_t got = pread(rawfd, &raw[0], (size_t)rawlen, 0);
-            if (got > 0) out_frame(ctl_out, 'X', raw.data(), (size_t)got);
+            if (got > 0) add('X', raw.data(), (size_t)got);
         }
         char wb[64];
         int wn = WIFEXITED(st) ? snprintf(wb, sizeof wb, "exited %d", WEXITSTATUS(st))
                                : snprintf(wb, sizeof wb, "signaled %d", WIFSIGNALED(st) ? WTERMSIG(st) : -1);
-        out_frame(ctl_out, 'W', wb, (size_t)wn);
-        out_frame(ctl_out, '.', "", 0);
+        add('W', wb, (size_t)wn);
+        // one batch: 'B' <total length> then all frames
+        char h[5]; h[0] = 'B'; uint32_t tot = g_shm->len + (uint32_t)tail.size(); memcpy(h + 1, &tot, 4);
+        write_all(ctl_out, h, 5);
+        write_all(ctl_out, (const void*)g_shm->data, g_shm->len);
+        write_all(ctl_out, tail.data(), tail.size());
     }
 }
 
